@@ -134,7 +134,36 @@ func Generate(genseed uint64, stream string, thorough bool) *Case {
 		}
 	}
 
+	// which callbacks are set: all, none (= default options) or a random subset
+	switch r.Intn(10) {
+	case 0, 1, 2:
+		c.CbSet = "11111"
+	case 3, 4, 5:
+		c.CbSet = "00000"
+	default:
+		bits := []byte("00000")
+		for i := range bits {
+			if r.Bool() {
+				bits[i] = '1'
+			}
+		}
+		c.CbSet = string(bits)
+	}
+	c.FindSucc = r.Chance(1, 3)
+
 	switch stream {
+	case "rootpresent":
+		// Copy whose root is already in the destination: {Tagger, ReferencePusher} x {OnCopySkipped nil, set}
+		c.Mode = common.Pick(r, []string{"t", "r"})
+		for k := range g.Reach(c.Root) {
+			set[k] = true
+		}
+		if c.MapRoot >= 0 {
+			for k := range g.Reach(c.MapRoot) {
+				set[k] = true
+			}
+		}
+		c.Platform = ""
 	case "twin":
 		// the twin (same bytes as a manifest, as application/octet-stream) is pre-populated,
 		// the manifest itself is reachable from the root
@@ -254,6 +283,16 @@ func Generate(genseed uint64, stream string, thorough bool) *Case {
 		} else {
 			c.FailCb = common.Pick(r, []string{"pre", "post"})
 		}
+	}
+	if c.FailCb != "" && !c.CbIsSet(c.FailCb) { // an injected failure needs its callback
+		bits := []byte(c.cbBits())
+		bits[map[string]int{"pre": 0, "post": 1, "skip": 2, "mounted": 3, "mountfrom": 4}[c.FailCb]] = '1'
+		c.CbSet = string(bits)
+	}
+	if c.Mount && !c.CbIsSet("mountfrom") && r.Chance(3, 4) { // a Mounter is pointless without MountFrom: mostly set it
+		bits := []byte(c.cbBits())
+		bits[4] = '1'
+		c.CbSet = string(bits)
 	}
 	for k := range set {
 		c.D0 = append(c.D0, k)
